@@ -216,7 +216,7 @@ def evaluate(plan, ctx):
     return Result(nt, ev)
 
 
-SUBCHECKS = [SubCheck("containers", strategy, evaluate, quick=4000, thorough=60000)]
+SUBCHECKS = [SubCheck("containers", strategy, evaluate, quick=6000, thorough=60000)]
 KNOWN = {}
 
 MANIFEST = {
